@@ -460,8 +460,8 @@ pub fn check_outcome(o: &Outcome, ovh: usize, vsz: usize) -> Vec<Fail> {
     let deps = ex.departed.len() as u64;
     // only the operations the property names may rebuild the table (and then hash each held entry once):
     // reserve, try_reserve, shrink_to, shrink_to_fit and an insertion that grows it (clone is checked apart)
-    let may_rebuild = matches!(op, OpKind::Reserve(_) | OpKind::TryReserve(_) | OpKind::Shrink(_) | OpKind::ShrinkFit
-        | OpKind::Ins { .. } | OpKind::TIns { .. });
+    let may_rebuild = matches!(op, OpKind::Reserve(_) | OpKind::TryReserve(_) | OpKind::Shrink(_) | OpKind::ShrinkFit)
+        || (matches!(op, OpKind::Ins { .. } | OpKind::TIns { .. }) && !o.ret.is_rejection());
     let rebuilt = may_rebuild && match &o.post {
         Some(p) => p.alloc_ptr != pre.alloc_ptr || p.bk != pre.bk,
         None => false,
